@@ -946,7 +946,15 @@ def gen_http_template(rng, toks, length, profile="mixed"):
         # calendar objects (a card, which the index cannot describe) are created and replaced in it
         ops += [("WARM", CAL), ("PUT", CAL + "/note.vcf", "text/vcard", cards[0], "none", "none"),
                 ("POST", CAL, "text/vcard", cards[1]),
-                ("PUT", CAL + "/note.vcf", "text/vcard", cards[1], "none", "none")]
+                ("PUT", CAL + "/note.vcf", "text/vcard", cards[1], "none", "none"),
+                # add-member (the server picks the name, so only the declared type says what it is) with bodies
+                # that are not calendar objects, under a plain and a parameterised calendar media type
+                ("POST", CAL, "text/calendar", bad[0]),
+                ("POST", CAL, "text/calendar; charset=utf-8", bad[-1]),
+                ("POST", CAL, "text/calendar;charset=UTF-8; component=VEVENT", bad[0]),
+                # …and a PUT under a name without an extension: there, too, only the declared type says what it is
+                ("PUT", CAL + "/noext", "text/calendar; charset=utf-8", bad[0], "none", "none"),
+                ("PUT", CAL + "/noext", "text/calendar", bad[-1], "none", "none")]
         paths.append(CAL + "/note.vcf")
     if profile == "sync" and len(icals) >= 2:
         # every history starts with one member created, changed and removed, a report after each step
@@ -1026,6 +1034,7 @@ def gen_http_template(rng, toks, length, profile="mixed"):
                         rng.choice(["text/calendar", "text/calendar", "text/calendar; charset=utf-8",
                                     "text/calendar;charset=UTF-8; component=VEVENT"]) if rng.random() < 0.6 else
                         rng.choice(["text/vcard", "text/vcard; charset=utf-8"]),
+                        rng.choice(bad) if rng.random() < 0.15 else
                         rng.choice(icals) if rng.random() < 0.6 else rng.choice(cards)))
         else:
             ops.append(("MKCOL" if rng.random() < 0.5 else "MKCALENDAR",
